@@ -49,7 +49,7 @@ func c05Purity(c *Ctx, ms map[string]*fsmx.Machine) {
 				}
 				seen[v] = true
 				if p, ok := v.(*ssa.Phi); ok {
-					for _, e := range p.Edges {
+					for _, e := range ssax.FeasibleEdges(p) {
 						walk(e)
 					}
 					return
